@@ -204,11 +204,26 @@ def make_adapter(ctx, kind, tag, delays):
     if kind == "dfix":
         d = ctx.td("d_" + tag, lo_us=0)
         delays.append(d)
-        return fm.adapters.DelayFixed(d)
+        ada = fm.adapters.DelayFixed(d)
+        ada._vf_spec = d
+        return ada
     if kind.startswith("dpull"):
         n = int(kind[5:] or 1)
         d = ctx.td("d_" + tag, lo_us=0)
-        return fm.adapters.DelayToPull(steps=n, additional_delay=d)
+        ada = fm.adapters.DelayToPull(steps=n, additional_delay=d)
+        # harness-side record of the (successful) pulls through this adapter, for spec_with_delay
+        ada._vf_spec = (n, d)
+        ada._vf_pulls = []
+        ada._vf_hist = None
+        orig = ada.get_data
+
+        def get_data(time, target, _orig=orig, _ada=ada):
+            r = _orig(time, target)
+            _ada._vf_pulls.append(time)
+            return r
+
+        ada.get_data = get_data
+        return ada
     if kind == "dpush":
         return fm.adapters.DelayToPush()
     raise ValueError(kind)
@@ -217,6 +232,23 @@ def make_adapter(ctx, kind, tag, delays):
 # ----------------------------------------------------------------------------
 # specification walker (independent of finam.schedule)
 # ----------------------------------------------------------------------------
+def spec_with_delay(ada, kind, t):
+    """The documented shift of a delay adapter, written from the documentation and the parameters the
+    harness created the adapter with (independent of the adapter's own with_delay, which is part of what
+    is checked): DelayFixed(d): t - d; DelayToPull(n, extra): time of the n-th last pull through the
+    adapter (the initial time while fewer than n pulls happened) - extra; never before the initial time."""
+    init = ada.initial_time
+    if kind == "dfix" and hasattr(ada, "_vf_spec"):
+        off = t - ada._vf_spec
+    elif kind.startswith("dpull") and hasattr(ada, "_vf_spec"):
+        n, extra = ada._vf_spec
+        hist = ada._vf_hist if ada._vf_hist is not None else [init] * n + list(ada._vf_pulls)
+        off = hist[-n] - extra
+    else:
+        return ada.with_delay(t)
+    return init if bool(off < init) else off
+
+
 def link_request(link, t):
     """Time that will reach the source output when the consumer requests ``t``: the documented shifts of
     the adapters applied in pull order (input side first), accumulating.  Decided from the KIND each adapter
@@ -231,7 +263,7 @@ def link_request(link, t):
         if kind == "dpush":
             return None
         if kind == "dfix" or kind.startswith("dpull") or kind == "delay":
-            t = ada.with_delay(t)
+            t = spec_with_delay(ada, kind, t)
         if kind in PUSH_BASED_KINDS or kind == "push_based":
             # a push-based adapter serves from a buffer filled at the source's push times: it can
             # serve t only if the source has pushed at or beyond t, whatever sits further upstream
@@ -372,8 +404,11 @@ class RunMonitor:
             if any(isinstance(a, TimeCachingAdapter) for a in l["adapters"]):
                 continue  # served from the adapter's buffer, the source is not asked now
             tr = t
-            for ada in reversed(l["adapters"]):
-                if isinstance(ada, ITimeDelayAdapter):
+            kinds = l.get("kinds") or [None] * len(l["adapters"])
+            for ada, kind in zip(reversed(l["adapters"]), reversed(kinds)):
+                if kind is not None and (kind == "dfix" or kind.startswith("dpull")):
+                    tr = spec_with_delay(ada, kind, tr)
+                elif kind is None and isinstance(ada, ITimeDelayAdapter):
                     tr = ada.with_delay(tr)
             src = w["comps"][l["src"]]
             self.expected.setdefault(id(src.outputs[l["out"]]), []).append(tr)
@@ -560,6 +595,19 @@ def assume_delays_cover_steps(ctx, w):
     tot = None
     for d in w["delays"]:
         tot = d if tot is None else tot + d
+    # a delay-to-pull adapter in front of a time component delays by at least n of its (smallest) steps
+    for l in w["links"]:
+        dst = w["comps"][l["dst"]]
+        for ada in l["adapters"]:
+            if isinstance(getattr(ada, "_vf_spec", None), tuple) and isinstance(dst, HComp):
+                n, extra = ada._vf_spec
+                m = dst.steps[0]
+                for s_ in dst.steps[1:]:
+                    m = s_ if bool(s_ < m) else m
+                d = extra
+                for _ in range(n):
+                    d = d + m
+                tot = d if tot is None else tot + d
     need = None
     for c in w["comps"].values():
         if isinstance(c, HComp):
@@ -613,6 +661,28 @@ def h_step(ctx):
                     prev = t
                     mem.append(t)
                 ada._pulls = mem
+                ada._vf_hist = [mem[0]] * (n - len(mem)) + mem
+                kinds_after = (l.get("kinds") or [])[pos + 1:]
+                if isinstance(consumer, HComp) and not any(
+                        k == "dfix" or k.startswith("dpull") or k == "dpush" for k in kinds_after):
+                    # invariant of reachable memories: the pulls are the consumer's own update times (it pulls
+                    # every input at every update) -- the newest is its current time, consecutive ones are at
+                    # least its smallest step apart; only the oldest entry may be the initial-time seed
+                    ms = consumer.steps[0]
+                    for s_ in consumer.steps[1:]:
+                        ms = s_ if bool(s_ < ms) else ms
+                    if len(mem) < n:
+                        ctx.assume(mem[0] == ada.initial_time)  # not yet trimmed: still starts with the seed
+                    seed_only = (mem[0] == ada.initial_time) if len(mem) == 1 else False
+                    if len(mem) == 1 and bool(seed_only):
+                        ctx.assume(consumer._time == consumer.start)
+                    else:
+                        ctx.assume(mem[-1] == consumer._time)
+                        for j in range(len(mem) - 1):
+                            gap_ok = (mem[j + 1] - mem[j]) >= ms
+                            if j == 0:
+                                gap_ok = gap_ok | (mem[0] == ada.initial_time)
+                            ctx.assume(gap_ok)
             elif isinstance(ada, fm.adapters.DelayToPush):
                 src = comps[l["src"]]
                 if isinstance(src, ITimeComponent):
